@@ -193,6 +193,22 @@ pub fn run(r: &mut R) {
                         lines.append('r.check("no tuple conversion when only a field carries #[into]", !has_from!(%s, S));' % ft)
                     if not sh.same:
                         mk("into_field", sat, fat, ["Into"], lines, impls={"Into": 2 if with_struct else 1})
+                # a field with conversions of its own that is also skipped for the tuple conversions (documented combination)
+                if not sh.same:
+                    for with_struct in (False, True):
+                        kept = [j for j in range(n) if j != i]
+                        fat = {i: "#[into(ref)] #[into(skip)]"}
+                        sat = ["#[into]"] if with_struct else []
+                        lines = ["let s = %s;" % full, 'r.eq("field-level ref yields the skipped field itself", adr(<&%s>::from(&s)), adr(&s.%s));' % (F[i], sh.names[i])]
+                        kt = tup([F[j] for j in kept])
+                        if with_struct:
+                            lines.append('r.eq("struct-level attribute: tuple of the non-skipped fields", <%s>::from(s.clone()), %s);' % (kt, tup([sh.fval(j) for j in kept])))
+                            nimpl = 2
+                        else:
+                            lines.append('r.check("no tuple conversion when only a (skipped) field carries #[into]", !has_from!(%s, S));' % kt)
+                            nimpl = 1
+                        lines.append('r.check("no conversion into the full tuple", !has_from!(%s, S));' % ft)
+                        mk("into_field_skip", sat, fat, ["Into"], lines, impls={"Into": nimpl})
                 fat = {i: "#[into(owned(%s), ref)]" % H[i]}
                 lines = ["let s = %s;" % full,
                          'r.eq("field-level owned(listed)", <%s>::from(s.clone()), Hx::<%d, %d>(%d));' % (H[i], sh.owner, sh.idx[i], 10 * i + 3),
